@@ -178,7 +178,14 @@ func main() {
 	b.WriteString("/- REGENERATED by /verif/tools/sites (go/types, source importer) from every non-test .go file of /repo\n   except the generated internal/gontainer/gontainer.go — do not edit. -/\nnamespace GM.Generated\n\n")
 	fmt.Fprintf(&b, "/-- `range` statements over map-typed expressions -/\ndef mapRangeSites : List String := %s\n\n", leanList(uniq(mapRanges)))
 	fmt.Fprintf(&b, "/-- constructs that can panic: slice/array/string index, slice expression, type assertion without comma-ok, explicit panic, Must* call, strings.Repeat -/\ndef panicSites : List String := %s\n\n", leanList(uniq(panics)))
-	fmt.Fprintf(&b, "/-- every `for` statement with its kind -/\ndef loopSites : List String := %s\n\n", leanList(uniq(loops)))
+	{
+		var ps []string
+		for _, l := range uniq(loops) {
+			i := strings.LastIndex(l, ": ")
+			ps = append(ps, "("+leanStr(l[:i])+", "+leanStr(l[i+2:])+")")
+		}
+		fmt.Fprintf(&b, "/-- every `for` statement: (function, kind) -/\ndef loopSites : List (String × String) := [%s]\n\n", strings.Join(ps, ", "))
+	}
 	fmt.Fprintf(&b, "/-- functions that call a function of their own name (coarse recursion check) -/\ndef selfCalls : List String := %s\n\n", leanList(uniq(rec)))
 	fmt.Fprintf(&b, "/-- calls into os, io/fs, time, math/rand, runtime, path/filepath, os/exec, net -/\ndef ambientCalls : List String := %s\n\n", leanList(uniq(ambient)))
 	fmt.Fprintf(&b, "/-- literal step names returned by Name() methods -/\ndef stepNames : List String := %s\n\nend GM.Generated\n", leanList(uniq(stepNames)))
